@@ -10,6 +10,7 @@ import (
 	"fmt"
 	"runtime/debug"
 	"syscall"
+	"unsafe"
 )
 
 // Region is one guarded mapping.
@@ -84,3 +85,24 @@ func Call(f func()) (panicked interface{}) {
 	f()
 	return nil
 }
+
+// ReadOnly copies content to the end of the accessible area and makes the area READ-ONLY: the returned string lives in
+// memory that cannot be written (like a string constant or a read-only file mapping) and ends at an inaccessible page.
+// A store into it faults.  Writable undoes the protection (needed before the next AtEnd / AtStart / ReadOnly).
+func (r *Region) ReadOnly(content string) string {
+	_ = syscall.Mprotect(r.data, syscall.PROT_READ|syscall.PROT_WRITE)
+	n := len(content)
+	if n > len(r.data) {
+		panic(fmt.Sprintf("guard: %d bytes do not fit into %d", n, len(r.data)))
+	}
+	off := len(r.data) - n
+	copy(r.data[off:], content)
+	_ = syscall.Mprotect(r.data, syscall.PROT_READ)
+	if n == 0 {
+		return ""
+	}
+	return unsafe.String(&r.data[off], n)
+}
+
+// Writable makes the accessible area writable again.
+func (r *Region) Writable() { _ = syscall.Mprotect(r.data, syscall.PROT_READ|syscall.PROT_WRITE) }
